@@ -20,8 +20,17 @@ for d in "$V"/seeded/*/; do
     git -C "$WT" checkout -q -- . 2>/dev/null; git -C "$WT" reset -q --hard
     echo "$name $prop patch-does-not-apply-on-HEAD"; continue
   fi
+  if [ "$prop" = C13 ]; then
+    # the battery histories one at a time (0: one module, 1: the shared leaf in a replaced module)
+    out=$(VERIF_REPO="$WT" "$V/vcheck" C13 --tier quick -one 0 -detlog 2>&1 | grep '^run 0 ')
+    case "$out" in *'violation ""'*) out="$out
+$(VERIF_REPO="$WT" "$V/vcheck" C13 --tier quick -one 1 -detlog 2>&1 | grep '^run 1 ')";; esac
+    classes=$(echo "$out" | grep -o 'violation "[a-z0-9-]*"' | grep -v '""' | sed 's/violation "/class=/;s/"$//' | sort | uniq -c | awk '{printf "%s(%s) ", $2, $1}')
+    rc=0; [ -n "$classes" ] && rc=1
+  else
   out=$(VERIF_REPO="$WT" "$V/vcheck" "$prop" --tier quick "${extra[@]}" 2>&1); rc=$?
   classes=$(echo "$out" | grep -o "class=[a-z0-9-]*" | sort | uniq -c | sort -rn | awk '{printf "%s(%s) ", $2, $1}')
+  fi
   echo "$name $prop exit=$rc ${classes:-none}"
   git -C "$WT" reset -q --hard
 done
